@@ -52,7 +52,8 @@ class C02(DiffProperty):
                   "with arbitrary wire cuts incl. single-byte delivery, decided against the specification 'received = sent'")
     level_note = ("partial: (1) liveness is proved for the reader side of the glue: C02_dispatch_delivers (in any reachable glue state, once a complete accepted frame is in the "
                   "input ring ONE mpt_stream_dispatch hands a message to the handler: streamRecv enlarges by 64 as often as the decoder asks, every round consumes at least 47 "
-                  "bytes of the frame -- C02_ring_round_progress, C02_ring_dispatch_policy_delivers, C02_stream_recv_delivers), but not for the transport: that flush and poll "
+                  "bytes of the frame -- C02_ring_round_progress, C02_ring_dispatch_policy_delivers, C02_stream_recv_delivers; C02_glue_dispatch_all: when the unread bytes of the input "
+                  "ring are the frames of n messages, n dispatches hand over exactly the next n completed messages and nothing is left), but not for the transport: that flush and poll "
                   "move every finished byte through the kernel oracle is decided against the specification only (two stall defects of exactly this kind were found by the "
                   "thorough tier and by the input-object cases, and repaired: one enlargement only; the stream input returning MissingBuffer to the event loop); "
                   "(2) not modelled: poll() paths with a timeout, POLLOUT handling, memory-mapped and text-mode "
